@@ -34,8 +34,10 @@ var docTexts = map[string]string{
 		"0 @I3@ INDI\n1 NAME Cy /Birch/\n1 FAMC @F1@\n0 @F1@ FAM\n1 HUSB @I2@\n1 WIFE @I1@\n1 CHIL @I3@\n1 MARR\n2 DATE 1 Jun 1870\n0 @S1@ SOUR\n1 TITL Register\n",
 	"faulted": "0 @I1@ INDI\n1 NAME //\n1 BIRT\n2 DATE sometime\n1 FAMS @F9@\n0 @I2@ INDI\n1 SEX F\n1 SEX M\n0 @I2@ INDI\n1 NAME Dup\n" +
 		"0 @F1@ FAM\n1 HUSB @I9@\n1 WIFE\n1 CHIL @S1@\n1 CHIL @I1@\n1 HUSB @I1@\n0 @F2@ FAM\n0 @S1@ SOUR\n",
+	// lists whose every element is nil: families without husbands, individuals without names or events
+	"all-absent": "0 @I1@ INDI\n1 SEX F\n0 @I2@ INDI\n1 SEX M\n0 @F1@ FAM\n1 WIFE @I1@\n0 @F2@ FAM\n1 CHIL @I2@\n",
 }
-var docNames = []string{"empty", "bare", "family", "faulted"}
+var docNames = []string{"empty", "bare", "family", "faulted", "all-absent"}
 
 type kase struct {
 	Query string   `json:"query"`
@@ -246,6 +248,8 @@ func varAtoms() []string {
 		out = append(out, "{ k: "+a+" }")
 	}
 	out = append(out, "NodesWithTagPath(X)", "First(X)", "MergeDocumentsAndIndividuals(X, Y)", "MergeDocumentsAndIndividuals(Document1, X)")
+	// comparisons with variables on one and on both sides, bare and as conditions
+	out = append(out, "X = X", "X = Y", "Y != X", "X > 1", "1 < X", "Only(X = X)", "Only(X != Y)", "Only(Y >= X)")
 	return out
 }
 
@@ -276,7 +280,7 @@ var byteAlphabet = []byte{'.', '"', 'a', '1', '|', '(', ' ', 0xFF}
 
 // ---------- running ----------
 
-var docSets = [][]string{{"empty"}, {"bare"}, {"family"}, {"faulted"}, {"family", "faulted"}, {"empty", "family"}}
+var docSets = [][]string{{"empty"}, {"bare"}, {"family"}, {"faulted"}, {"family", "faulted"}, {"empty", "family"}, {"all-absent"}}
 
 func runQuery(r *vlib.Rec, query string, sets [][]string, after *string) {
 	for _, ds := range sets {
@@ -327,7 +331,7 @@ func run(tier, unit string, r *vlib.Rec) {
 					continue
 				}
 				r.Count("chain")
-				runQuery(r, cs[idx]+sfx, [][]string{{"family"}, {"faulted"}}, &after)
+				runQuery(r, cs[idx]+sfx, [][]string{{"family"}, {"faulted"}, {"all-absent"}}, &after)
 			}
 		}
 	case "mutations":
